@@ -30,6 +30,7 @@ func VerifLinktestDisconnectRecheck(suppress bool, inflight, recvNow, sentAt int
 // than any real monotonic send stamp because the driver waits past it before starting), the
 // value VerifStampFuture is stored as a stamp far in the future (greater than any send stamp).
 type VerifLinktestObs struct {
+	Active        bool  // suppression rule 1: one of OUR OWN writes landed within the last interval (timed runs only)
 	PreInflight   int64 // DataMsgInflight() seen by suppression rule 2 (suppress on only)
 	ProbeFails    bool  // WriteMessage returns a (T6) error
 	RecvNow       int64 // lastRecvStamp at the failure snapshot
@@ -59,6 +60,9 @@ type verifLinktestRT struct {
 	inflCall  int // DataMsgInflight calls within the iteration
 	probed    bool
 	down      bool
+	interval  time.Duration // > 1ns: timed run, rule 1 is scripted through lastSendStamp
+	activeT0  int64         // monoNanos() when the current iteration's own-send stamp was planted
+	invalid   bool          // a scripted rule-1 window was missed because the scheduler delayed the loop
 	snap      [5]uint64
 	trace     []VerifLinktestIter
 }
@@ -99,6 +103,18 @@ func (r *verifLinktestRT) State() hsms.ConnState {
 	r.probed = false
 	// a scripted far-future stamp from the previous iteration must not trip suppression rule 1
 	r.t.lastRecvStamp.Store(0)
+	if r.interval > time.Nanosecond {
+		// Rule 1 reads max(lastSendStamp, lastRecvStamp). An "active" iteration gets an own-send
+		// stamp half an interval ahead of now, so idle < interval holds for any scheduling delay
+		// below 1.5 intervals; every other iteration sees a line silent since the epoch.
+		r.activeT0 = 0
+		if r.cur().Active {
+			r.activeT0 = r.t.monoNanos()
+			r.t.lastSendStamp.Store(r.activeT0 + int64(r.interval/2))
+		} else {
+			r.t.lastSendStamp.Store(0)
+		}
+	}
 
 	return hsms.SelectedState
 }
@@ -107,7 +123,16 @@ func (r *verifLinktestRT) cur() VerifLinktestObs { return r.obs[r.idx-1] }
 
 func (r *verifLinktestRT) LinktestSuppression() bool { return r.suppress }
 
+// missedWindow is called when the loop got past rule 1; if the iteration was scripted active and
+// the loop was delayed beyond the planted window, the run says nothing about the code.
+func (r *verifLinktestRT) missedWindow() {
+	if r.activeT0 != 0 && r.t.monoNanos()-r.activeT0 >= int64(r.interval)+int64(r.interval/2) {
+		r.invalid = true
+	}
+}
+
 func (r *verifLinktestRT) DataMsgInflight() int64 {
+	r.missedWindow()
 	r.inflCall++
 	o := r.cur()
 	if !r.probed {
@@ -125,6 +150,7 @@ func (r *verifLinktestRT) DataMsgInflight() int64 {
 }
 
 func (r *verifLinktestRT) WriteMessage(_ context.Context, msg hsms.Message) (hsms.Message, error) {
+	r.missedWindow()
 	r.probed = true
 	o := r.cur()
 	if o.ProbeFails {
@@ -151,9 +177,15 @@ func (r *verifLinktestRT) SendAsync(context.Context, hsms.Message) error        
 func (r *verifLinktestRT) Done() <-chan struct{}                                   { return nil }
 func (r *verifLinktestRT) Timers() hsms.TimerConfig                                { return hsms.TimerConfig{T6: time.Second} }
 func (r *verifLinktestRT) SessionID() uint16                                       { return 0 }
-func (r *verifLinktestRT) LinktestInterval() time.Duration                         { return time.Nanosecond }
-func (r *verifLinktestRT) LinktestFailThreshold() int                              { return r.threshold }
-func (r *verifLinktestRT) NextSystemBytes() [4]byte                                { return [4]byte{} }
+func (r *verifLinktestRT) LinktestInterval() time.Duration {
+	if r.interval > 0 {
+		return r.interval
+	}
+
+	return time.Nanosecond
+}
+func (r *verifLinktestRT) LinktestFailThreshold() int { return r.threshold }
+func (r *verifLinktestRT) NextSystemBytes() [4]byte   { return [4]byte{} }
 
 // VerifRunLinktest runs the REAL runLinktest loop synchronously against a scripted runtime and
 // returns what each iteration did. Suppression rule 1 (idle < interval) never fires because the
@@ -179,4 +211,31 @@ func VerifRunLinktest(threshold int, suppress bool, obs []VerifLinktestObs) []Ve
 	}
 
 	return r.trace
+}
+
+// VerifRunLinktestTimed is VerifRunLinktest with a real interval, so that suppression rule 1 is
+// scripted too: an observation with Active set is an iteration in which one of our OWN writes
+// landed inside the window the timer fire looks back over (nothing received). Each iteration costs
+// about one interval of real time. invalid reports that the scheduler delayed the loop past a
+// planted window (the trace is then not comparable with the script and must be discarded).
+func VerifRunLinktestTimed(threshold int, suppress bool, obs []VerifLinktestObs, interval time.Duration) (trace []VerifLinktestIter, invalid bool) {
+	t := newTransport(Config{})
+	for t.monoNanos() <= VerifStampSmallMax || t.monoNanos() <= int64(2*interval) {
+		time.Sleep(time.Microsecond)
+	}
+	r := &verifLinktestRT{t: t, obs: obs, threshold: threshold, suppress: suppress, interval: interval}
+	t.rt = r
+	r.snap = r.counters()
+	g := &genWG{}
+	g.linktest.Add(1)
+	var sr suppressionRuntime
+	if suppress {
+		sr = r
+	}
+	t.runLinktest(context.Background(), g, interval, sr)
+	if len(r.trace) < r.idx {
+		r.flush()
+	}
+
+	return r.trace, r.invalid
 }
